@@ -100,7 +100,19 @@ Dist(c)          == Cardinality({a \in Axes : c[a] # Baseline[a]})
 (* directory, no randomisation.  Everything that depends on addresses only is equal in such runs.   *)
 SameImage(c1, c2) == DiffAxes(c1, c2) \subseteq {"rep"}
 
-(* the order in which observations are fed to the monitor: the baseline first, then by distance *)
+(* ---- the space as a set (constant level), the star around the baseline ---------------------------- *)
+AllGc   == {[flag |-> f, k |-> 0, j |-> 0] : f \in GcFlags}
+           \cup UNION {{[flag |-> f, k |-> k, j |-> j] : j \in Offsets(k)} : f \in {"none", "-Wgc"}, k \in Ks}
+Configs == {c \in [gc : AllGc, aslr : Values("aslr"), cwd : Values("cwd"), env : Values("env"), inv : Values("inv"),
+                   rep : Values("rep")] : Valid(c)}
+Star    == {c \in Configs : Dist(c) <= 1}
+(* every value of every axis is met by a configuration that differs from the baseline on that axis only *)
+StarCovers == /\ \A g \in AllGc : \E c \in Star : c.gc = g
+              /\ \A a \in Axes \ {"gc"} : \A v \in Values(a) : \E c \in Star : c[a] = v
+(* the machine reaches exactly the set *)
+MachineInSpace == Complete => cfg \in Configs
+ASSUME PrintT("NCONFIGS " \o ToString(Cardinality(Configs)) \o " STAR " \o ToString(Cardinality(Star)))
+
 Export == /\ Complete
           /\ PrintT("CONFIG " \o ToJson([id |-> Id(cfg), cfg |-> cfg, args |-> Args(cfg), envadd |-> EnvAdd(cfg),
                                           wrapper |-> Wrapper(cfg), classes |-> Classes(cfg), dist |-> Dist(cfg),
